@@ -38,7 +38,10 @@ func main() {
 		"on an uncached twin (caches disabled or cleared before every query / a fresh filter per query), on the Lean model " +
 		"driver (exact gcache LRU order) and against a direct evaluation of the current list version; hash-prefix cases add " +
 		"forced schedules (lookups parked between Matches and the cache insertion while a refresh completes); full-storage " +
-		"cases run all filters together against the uncached twin; concurrent cases race real goroutines against refreshes. " +
+		"cases run all filters together against the uncached twin; concurrent cases race real goroutines against refreshes; " +
+		"conv cases take the profiles' custom rules from an in-process gRPC backend through backendpb.ProfileStorage and " +
+		"profiledb (full/incremental/failed synchronisations, cache file, restarts) into the filter storage and judge every " +
+		"answer by the rule version delivered last. " +
 		"A case is non-trivial when it had a refresh and both filtered and unfiltered answers; distinct = distinct op logs"
 	var err error
 	scratch, err = os.MkdirTemp("", "agdverif-c12-")
@@ -53,6 +56,7 @@ func main() {
 	hashPrefixCampaign(o, r, m)
 	collisionCampaign(o, r, m)
 	customCampaign(o, r, m)
+	convCampaign(o, r, m)
 	storageCampaign(o, r)
 	concurrentCampaign(o, r)
 
